@@ -697,6 +697,17 @@ def to_onnx(
                 pass
             return dest
 
+        # A sidecar left by an earlier export to this path is stale by construction.
+        # onnx.save_model would append to it (the file grows with every re-export), and
+        # its "external data file exists" check looks for `location` relative to the
+        # current working directory, so a second export to a relative path would raise
+        # FileExistsError. Start from a clean slate instead.
+        try:
+            if os.path.exists(data_path):
+                os.remove(data_path)
+        except OSError:
+            pass
+
         onnx.save_model(
             model_proto,
             dest,
